@@ -299,6 +299,65 @@ pub fn run(ctx: &mut Ctx) {
         check_run(ctx, wl, case, &p, &st, "corpus");
     }
 
+    // W2c: tiny problems mixing a nonsymmetric cone (solver starts in the primal-dual strategy) with second-order
+    // cones, every data block at its own wild magnitude: the cheap way to drive iterates onto cone boundaries, into
+    // failed scaling updates, strategy switches and the error exits of the main loop, tens of thousands of times
+    let wl = "mixed_badly_scaled";
+    let total = ctx.count(12000, 240000);
+    for case in ctx.cases(wl, total) {
+        if ctx.out_of_budget() {
+            continue;
+        }
+        if case % 256 == 0 {
+            ctx.begin(wl, case);
+        }
+        let mut rng = Rng::for_case(ctx.seed, "C04/mixed_badly_scaled", case);
+        let mut cones = vec![if rng.bool(0.6) { ConeT::ExponentialConeT() } else { ConeT::PowerConeT(*rng.choose(&[0.5, 0.3, 0.9])) }];
+        for _ in 0..rng.usize(1, 2) {
+            cones.push(ConeT::SecondOrderConeT(rng.usize(2, 4)));
+        }
+        if rng.bool(0.3) {
+            cones.push(ConeT::NonnegativeConeT(rng.usize(1, 2)));
+        }
+        rng.shuffle(&mut cones);
+        let m: usize = cones.iter().map(vkit::cones::cone_dim).sum();
+        let n = rng.usize(2, 4);
+        let two_digits = |v: f64| {
+            // data rounded to two significant digits (exact ties and cancellations become likely)
+            if v == 0.0 {
+                return 0.0;
+            }
+            let e = v.abs().log10().floor();
+            let f = 10f64.powf(e - 1.0);
+            (v / f).round() * f
+        };
+        let (ea, eb, eq, ep) = (rng.range(0.0, 12.0), rng.range(0.0, 20.0), rng.range(-12.0, 2.0), rng.range(-2.0, 10.0));
+        let mut a = vkit::dense::Dense::zeros(m, n);
+        for i in 0..m {
+            for j in 0..n {
+                if rng.bool(0.6) {
+                    a.set(i, j, two_digits(rng.range(-1.0, 1.0) * 10f64.powf(ea + rng.range(0.0, 1.0))));
+                }
+            }
+        }
+        let b: Vec<f64> = (0..m).map(|_| two_digits(rng.range(-1.0, 1.0) * 10f64.powf(eb + rng.range(0.0, 1.0)))).collect();
+        let q: Vec<f64> = (0..n).map(|_| two_digits(rng.range(-1.0, 1.0) * 10f64.powf(eq + rng.range(0.0, 1.0)))).collect();
+        let mut pd = vkit::dense::Dense::zeros(n, n);
+        for j in 0..n {
+            if rng.bool(0.4) {
+                pd.set(j, j, two_digits(rng.range(0.1, 1.0) * 10f64.powf(ep)));
+            }
+        }
+        let p = Problem { P: pd.to_csc(), q, A: a.to_csc(), b, cones };
+        let mut st = gen::default_settings();
+        st.max_iter = *rng.choose(&[50, 200]);
+        if rng.bool(0.3) {
+            st.equilibrate_enable = false;
+        }
+        ctx.nontrivial_hash(p.hash() ^ case);
+        check_run(ctx, wl, case, &p, &st, "mixed_badly_scaled");
+    }
+
     // W3: inconsistent dimensions are rejected at construction with the documented panic
     let wl = "dimension_mismatch";
     let total = ctx.count(400, 4000);
